@@ -5,7 +5,7 @@
    keeps an element when the result is true or, for a number n, when the element is the n-th among its same-named siblings.
    The theorems are parametric in the number type and its operations (IEEE doubles in the implementation). *)
 From AHP Require Import Model.Base Model.Str Model.Attr Model.Dom Model.Search Model.Index Model.Passes Model.XPath
-     Proofs.PassesProofs Proofs.SearchProofs Proofs.DomProofs Proofs.IndexProofs Proofs.XPathProofs.
+     Proofs.PassesProofs Proofs.SearchProofs Proofs.DomProofs Proofs.IndexProofs Proofs.XPathProofs Proofs.XPathPathProofs.
 
 (* the three-pass evaluation of any admissible flat layout of an expression tree gives the value of the tree *)
 Theorem C14_passes_correct : forall (val op : Type) (rank : op -> nat) (app : op -> val -> val -> val), (forall o, rank o <= 2) ->
@@ -54,8 +54,40 @@ Theorem C14_ancestor_axis : forall doc o, WF None o doc -> NoDup (uids_of doc) -
   (In r (map tuid (ancestors doc (length (all_nodes doc)) t)) <-> In (tuid t) (map tuid (descendants a))).
 Proof. exact ancestors_spec. Qed.
 
+(* whole location paths.  Steps compose: a path is evaluated as its prefix followed by the rest on the prefix's result (only the
+   very first step may select its context element itself) *)
+Theorem C14_path_composes : forall num nadd nsub nmul ndiv nmod neqb nltb nleb nzero of_nat of_digits doc s1 s2 first cur, s1 <> [] ->
+  run_steps num nadd nsub nmul ndiv nmod neqb nltb nleb nzero of_nat of_digits doc first (s1 ++ s2) cur
+  = match run_steps num nadd nsub nmul ndiv nmod neqb nltb nleb nzero of_nat of_digits doc first s1 cur with
+    | XOk l => run_steps num nadd nsub nmul ndiv nmod neqb nltb nleb nzero of_nat of_digits doc false s2 l
+    | XErr => XErr
+    end.
+Proof. exact run_steps_app. Qed.
+(* the result of a path holds every uid once, and each selected element is reached from one of the start elements through one
+   axis image (the element itself, its descendants, its ancestors) per step: nothing outside the lines of the start set is invented *)
+Theorem C14_path_sound : forall num nadd nsub nmul ndiv nmod neqb nltb nleb nzero of_nat of_digits doc sts roots l,
+  run num nadd nsub nmul ndiv nmod neqb nltb nleb nzero of_nat of_digits doc sts roots = XOk l ->
+  NoDup (map tuid l) /\ forall x, In x l -> exists t, In t roots /\ reach doc (length sts) t x.
+Proof. exact run_sound. Qed.
+(* predicates only filter: a step's predicates never add an element and keep a duplicate-free collection duplicate-free *)
+Theorem C14_predicates_only_filter : forall num nadd nsub nmul ndiv nmod neqb nltb nleb nzero of_nat of_digits doc ps l l',
+  apply_preds num nadd nsub nmul ndiv nmod neqb nltb nleb nzero of_nat of_digits doc ps l = XOk l' ->
+  (forall x, In x l' -> In x l) /\ (NoDup (map tuid l) -> NoDup (map tuid l')).
+Proof. exact apply_preds_spec. Qed.
+
 (* non-vacuity: a layout that needs all three passes, over nat as numbers *)
 Example C14_ex : let ev := XPath.eval nat Nat.add Nat.sub Nat.mul Nat.div Nat.modulo Nat.eqb Nat.ltb Nat.leb (Nat.eqb 0) (fun n => n) (fun _ => None) in
   ev 3 {| c_attr := fun _ => None; c_text := ""; c_last := 3; c_pos := 2 |}
      (XBin OAnd (XBin OEq (XBin OAdd XPos (XNum 1)) XLast) (XBin OLt (XNum 1) (XBin OMul (XNum 2) (XNum 2)))) = VBool nat true.
+Proof. vm_compute. reflexivity. Qed.
+
+(* non-vacuity of the path theorems: //p/parent::div over a three-element document, nat as numbers *)
+Example C14_ex_path :
+  let doc := appendChild_here (appendChild_here (new_tag 2 "b" st0 false None None) (new_tag 1 "p" st0 false None None))
+                              (new_tag 0 "div" st0 false None None) in
+  let rn := run nat Nat.add Nat.sub Nat.mul Nat.div Nat.modulo Nat.eqb Nat.ltb Nat.leb (Nat.eqb 0) (fun n => n) (fun _ => None) doc in
+  match rn [(true, None, "p", [XBin OEq XPos (XNum 1)]); (false, Some AParent, "div", [])] [doc] with
+  | XOk l => map tuid l = [0]
+  | XErr => False
+  end.
 Proof. vm_compute. reflexivity. Qed.
